@@ -271,6 +271,8 @@ def telegram_specs(draw, n_services: int = 0):
         "ack": draw(st.booleans()),
         "confirm_error": draw(st.booleans()),
         "hop": hop,
+        # how the control flags get onto the frame: CEMIFlags(...) constructor or attribute assignment
+        "flag_mode": draw(st.sampled_from(("ctor", "assign"))),
     }
 
 
